@@ -344,3 +344,53 @@ Proof.
   unfold read_tokens. change (read_go (length (flat_map ptoks p)) (flat_map ptoks p) [] []) with (readf (flat_map ptoks p) [] []).
   rewrite (readf_para p [] [] H). cbn [app]. unfold push_para. rewrite Ep. reflexivity.
 Qed.
+
+(* ------------------------------------------------------------------ a lossy-canonical value does not end in LF *)
+Lemma ends_lf_app a l : l <> [] -> ends_lf (a ++ l) = ends_lf l.
+Proof.
+  intros Hl. unfold ends_lf. rewrite rev_app_distr. destruct (rev l) as [|c r] eqn:Er; [|reflexivity].
+  exfalso. apply Hl. rewrite <- (rev_involutive l), Er. reflexivity.
+Qed.
+
+Lemma no_eol_ends l : no_eol l = true -> ends_lf l = false.
+Proof.
+  intros H. unfold ends_lf. destruct (rev l) as [|c r] eqn:Er; [reflexivity|].
+  assert (Hin : In c l). { apply in_rev. rewrite Er. left. reflexivity. }
+  unfold no_eol in H. rewrite forallb_forall in H. specialize (H c Hin). destruct (c =? 10)%N eqn:Ec; [|reflexivity].
+  apply N.eqb_eq in Ec. subst c. vm_compute in H. discriminate H.
+Qed.
+
+Lemma join_ends ls : forallb no_eol ls = true -> ends_lf (join [LF] ls) = true -> exists pre, pre <> [] /\ ls = pre ++ [[]].
+Proof.
+  induction ls as [|x r IH]; intros Hn He; [cbn in He; discriminate He|].
+  cbn [forallb] in Hn. apply andb_true_iff in Hn. destruct Hn as [Hx Hr]. destruct r as [|y r'].
+  - cbn [join] in He. rewrite (no_eol_ends x Hx) in He. discriminate.
+  - change (join [LF] (x :: y :: r')) with (x ++ [LF] ++ join [LF] (y :: r')) in He.
+    remember (join [LF] (y :: r')) as j eqn:Ej. destruct j as [|c w].
+    + destruct r' as [|z r''].
+      * cbn [join] in Ej. subst y. exists [x]. split; [discriminate|reflexivity].
+      * exfalso. change (join [LF] (y :: z :: r'')) with (y ++ [LF] ++ join [LF] (z :: r'')) in Ej. destruct y; discriminate Ej.
+    + rewrite app_assoc in He. rewrite ends_lf_app in He by discriminate. destruct (IH Hr He) as (pre & Hp & E). exists (x :: pre).
+      split; [discriminate|]. rewrite E. reflexivity.
+Qed.
+
+Lemma lcanon_no_ends_lf v : lcanon_value v = true -> ends_lf v = false.
+Proof.
+  intros H. pose proof (join_split_lf v) as Hj. destruct (ends_lf v) eqn:Ee; [|reflexivity]. exfalso.
+  unfold lcanon_value in H. destruct (split_lf v) as [|l1 rest] eqn:Es; [discriminate|].
+  apply andb_true_iff in H. destruct H as [H Hl]. apply andb_true_iff in H. destruct H as [H1 Hr].
+  assert (Hn : forallb no_eol (l1 :: rest) = true).
+  { cbn [forallb]. unfold canon_first in H1. apply andb_true_iff in H1. rewrite (proj1 H1). cbn [andb]. apply forallb_forall. intros l Hl'.
+    rewrite forallb_forall in Hr. specialize (Hr l Hl'). unfold lcanon_cont in Hr. apply andb_true_iff in Hr. apply Hr. }
+  rewrite <- Hj in Ee. destruct (join_ends _ Hn Ee) as (pre & Hp & E). destruct pre as [|a pre']; [congruence|].
+  injection E as <- Er. subst rest. unfold last_nonempty in Hl. rewrite rev_app_distr in Hl. cbn in Hl. discriminate.
+Qed.
+
+Lemma canon_fields_no_blank_last p : forallb canon_field p = true -> existsb (fun kv => ends_lf (snd kv)) p = false.
+Proof.
+  induction p as [|f r IH]; intros H; [reflexivity|]. cbn [forallb existsb] in *. apply andb_true_iff in H. destruct H as [Hf Hr].
+  unfold canon_field in Hf. apply andb_true_iff in Hf. rewrite (lcanon_no_ends_lf _ (canon_lcanon _ (proj2 Hf))). cbn [orb]. apply IH, Hr.
+Qed.
+
+Lemma canon_para_no_blank_last p : canon_para p = true -> existsb (fun kv => ends_lf (snd kv)) p = false.
+Proof. unfold canon_para. destruct p as [|f r] eqn:Ep; [discriminate|]. rewrite <- Ep. apply canon_fields_no_blank_last. Qed.
